@@ -13,6 +13,7 @@ from basilisp.lang.interfaces import (
     INamed,
     IPersistentMap,
     IPersistentVector,
+    IRecord,
     IReduceKV,
     ISeq,
     ITransientMap,
@@ -251,7 +252,9 @@ class PersistentMap(
     def __eq__(self, other):
         if self is other:
             return True
-        if not isinstance(other, Mapping):
+        if not isinstance(other, Mapping) or isinstance(other, IRecord):
+            # a record is only ever equal to a record of its own type; defer to it so
+            # that equality stays symmetric
             return NotImplemented
         if len(self._inner) != len(other):
             return False
